@@ -1,4 +1,4 @@
----- MODULE SparseMatrix_TTrace_1790904156 ----
+---- MODULE SparseMatrix_TTrace_1790904622 ----
 EXTENDS Sequences, SparseMatrix, TLCExt, Toolbox, Naturals, TLC
 
 _expression ==
@@ -16,11 +16,14 @@ _inv ==
         TLCGet("level") = Len(_TETrace)
         /\
         S = ([sp |-> <<[R |-> 1, C |-> 2, E |-> {}, row |-> <<<<>>>>, col |-> <<<<>>, <<>>>>, at |-> <<>>, blocks |-> {}, free |-> <<0>>, nb |-> 1], [R |-> 0, C |-> 0, E |-> {}, row |-> <<>>, col |-> <<>>, at |-> <<>>, blocks |-> {}, free |-> <<>>, nb |-> 0]>>, dn |-> <<[R |-> 0, C |-> 0, B |-> {}]>>])
+        /\
+        depth = (3)
     )
 ----
 
 _init ==
     /\ S = _TETrace[1].S
+    /\ depth = _TETrace[1].depth
 ----
 
 _next ==
@@ -29,13 +32,15 @@ _next ==
               /\ i = TLCGet("level")
         /\ S  = _TETrace[i].S
         /\ S' = _TETrace[j].S
+        /\ depth  = _TETrace[i].depth
+        /\ depth' = _TETrace[j].depth
 
 \* Uncomment the ASSUME below to write the states of the error trace
 \* to the given file in Json format. Note that you can pass any tuple
 \* to `JsonSerialize`. For example, a sub-sequence of _TETrace.
     \* ASSUME
     \*     LET J == INSTANCE Json
-    \*         IN J!JsonSerialize("SparseMatrix_TTrace_1790904156.json", _TETrace)
+    \*         IN J!JsonSerialize("SparseMatrix_TTrace_1790904622.json", _TETrace)
 
 =============================================================================
 
@@ -53,6 +58,7 @@ expression ==
         \* remove the variables below.  The trace will be written in the order
         \* of the fields of this record.
         S |-> S
+        ,depth |-> depth
         
         \* Put additional constant-, state-, and action-level expressions here:
         \* ,_stateNumber |-> _TEPosition
@@ -87,7 +93,7 @@ Parsing and semantic processing can take forever if the trace below is long.
 \*---- MODULE SparseMatrix_TETrace ----
 \*EXTENDS IOUtils, SparseMatrix, TLC
 \*
-\*trace == IODeserialize("SparseMatrix_TTrace_1790904156.bin", TRUE)
+\*trace == IODeserialize("SparseMatrix_TTrace_1790904622.bin", TRUE)
 \*
 \*=============================================================================
 \*
@@ -97,17 +103,17 @@ EXTENDS SparseMatrix, TLC
 
 trace == 
     <<
-    ([S |-> [sp |-> <<[R |-> 0, C |-> 0, E |-> {}, row |-> <<>>, col |-> <<>>, at |-> <<>>, blocks |-> {}, free |-> <<>>, nb |-> 0], [R |-> 0, C |-> 0, E |-> {}, row |-> <<>>, col |-> <<>>, at |-> <<>>, blocks |-> {}, free |-> <<>>, nb |-> 0]>>, dn |-> <<[R |-> 0, C |-> 0, B |-> {}]>>]]),
-    ([S |-> [sp |-> <<[R |-> 1, C |-> 2, E |-> {}, row |-> <<<<>>>>, col |-> <<<<>>, <<>>>>, at |-> <<>>, blocks |-> {}, free |-> <<>>, nb |-> 0], [R |-> 0, C |-> 0, E |-> {}, row |-> <<>>, col |-> <<>>, at |-> <<>>, blocks |-> {}, free |-> <<>>, nb |-> 0]>>, dn |-> <<[R |-> 0, C |-> 0, B |-> {}]>>]]),
-    ([S |-> [sp |-> <<[R |-> 1, C |-> 2, E |-> {<<0, 0>>}, row |-> <<<<1>>>>, col |-> <<<<1>>, <<>>>>, at |-> <<<<0, 0>>>>, blocks |-> {0}, free |-> <<0>>, nb |-> 1], [R |-> 0, C |-> 0, E |-> {}, row |-> <<>>, col |-> <<>>, at |-> <<>>, blocks |-> {}, free |-> <<>>, nb |-> 0]>>, dn |-> <<[R |-> 0, C |-> 0, B |-> {}]>>]]),
-    ([S |-> [sp |-> <<[R |-> 1, C |-> 2, E |-> {}, row |-> <<<<>>>>, col |-> <<<<>>, <<>>>>, at |-> <<>>, blocks |-> {}, free |-> <<0>>, nb |-> 1], [R |-> 0, C |-> 0, E |-> {}, row |-> <<>>, col |-> <<>>, at |-> <<>>, blocks |-> {}, free |-> <<>>, nb |-> 0]>>, dn |-> <<[R |-> 0, C |-> 0, B |-> {}]>>]])
+    ([S |-> [sp |-> <<[R |-> 0, C |-> 0, E |-> {}, row |-> <<>>, col |-> <<>>, at |-> <<>>, blocks |-> {}, free |-> <<>>, nb |-> 0], [R |-> 0, C |-> 0, E |-> {}, row |-> <<>>, col |-> <<>>, at |-> <<>>, blocks |-> {}, free |-> <<>>, nb |-> 0]>>, dn |-> <<[R |-> 0, C |-> 0, B |-> {}]>>],depth |-> 0]),
+    ([S |-> [sp |-> <<[R |-> 1, C |-> 2, E |-> {}, row |-> <<<<>>>>, col |-> <<<<>>, <<>>>>, at |-> <<>>, blocks |-> {}, free |-> <<>>, nb |-> 0], [R |-> 0, C |-> 0, E |-> {}, row |-> <<>>, col |-> <<>>, at |-> <<>>, blocks |-> {}, free |-> <<>>, nb |-> 0]>>, dn |-> <<[R |-> 0, C |-> 0, B |-> {}]>>],depth |-> 1]),
+    ([S |-> [sp |-> <<[R |-> 1, C |-> 2, E |-> {<<0, 0>>}, row |-> <<<<1>>>>, col |-> <<<<1>>, <<>>>>, at |-> <<<<0, 0>>>>, blocks |-> {0}, free |-> <<0>>, nb |-> 1], [R |-> 0, C |-> 0, E |-> {}, row |-> <<>>, col |-> <<>>, at |-> <<>>, blocks |-> {}, free |-> <<>>, nb |-> 0]>>, dn |-> <<[R |-> 0, C |-> 0, B |-> {}]>>],depth |-> 2]),
+    ([S |-> [sp |-> <<[R |-> 1, C |-> 2, E |-> {}, row |-> <<<<>>>>, col |-> <<<<>>, <<>>>>, at |-> <<>>, blocks |-> {}, free |-> <<0>>, nb |-> 1], [R |-> 0, C |-> 0, E |-> {}, row |-> <<>>, col |-> <<>>, at |-> <<>>, blocks |-> {}, free |-> <<>>, nb |-> 0]>>, dn |-> <<[R |-> 0, C |-> 0, B |-> {}]>>],depth |-> 3])
     >>
 ----
 
 
 =============================================================================
 
----- CONFIG SparseMatrix_TTrace_1790904156 ----
+---- CONFIG SparseMatrix_TTrace_1790904622 ----
 CONSTANTS
     BlockSize = 2
     ResetFreeOnClear = FALSE
@@ -135,4 +141,4 @@ CONSTANT
 ALIAS
     _expression
 =============================================================================
-\* Generated on Fri Oct 02 01:22:38 UTC 2026
+\* Generated on Fri Oct 02 01:30:23 UTC 2026
